@@ -54,6 +54,11 @@ FILTERS = {
     "all": flt(''),
     "partstat": flt('<C:comp-filter name="VEVENT"><C:prop-filter name="ATTENDEE"><C:param-filter name="PARTSTAT">'
                     '<C:text-match>ACCEPTED</C:text-match></C:param-filter></C:prop-filter></C:comp-filter>'),
+    # presence / absence of properties whose value may be empty or zero
+    "hasLoc": flt('<C:comp-filter name="VEVENT"><C:prop-filter name="LOCATION"/></C:comp-filter>'),
+    "hasPrio": flt('<C:comp-filter name="VEVENT"><C:prop-filter name="PRIORITY"/></C:comp-filter>'),
+    "noSeq": flt('<C:comp-filter name="VEVENT"><C:prop-filter name="SEQUENCE"><C:is-not-defined/>'
+                 '</C:prop-filter></C:comp-filter>'),
     "noPartstat": flt('<C:comp-filter name="VEVENT"><C:prop-filter name="ATTENDEE"><C:param-filter name="PARTSTAT">'
                       '<C:is-not-defined/></C:param-filter></C:prop-filter></C:comp-filter>'),
 }
@@ -113,6 +118,8 @@ BODIES = {
     "attN": (lambda U: cal(ev(U, "Alpha", extra=("ATTENDEE:mailto:b@example.com",))), "plain"),
     "tz": (lambda U: cal(TZ_BERLIN, ev(U, "Alpha", dtstart=";TZID=Europe/Berlin:20200201T003000",
                              dtend=";TZID=Europe/Berlin:20200201T013000")), "tzid"),
+    "empty": (lambda U: cal(ev(U, "Alpha", "", "")), "plain"),                      # LOCATION: and DESCRIPTION: empty
+    "zero": (lambda U: cal(ev(U, "", extra=("PRIORITY:0", "SEQUENCE:0", "PERCENT-COMPLETE:0"))), "plain"),
     "bad": (lambda U: b"BEGIN:VCALENDAR\r\nthis is not a calendar\r\n", "unparseable"),
 }
 
@@ -291,24 +298,43 @@ def run_model_behaviour(states, level, threshold, seed):
         s.close()
 
 
-def run_random(seed, level, threshold, storekind="tree", length=40):
+def random_ops(seed, length=40):
     rng = random.Random(seed)
+    names = ["a", "b", "c", "d"]
+    fl = list(FILTERS)
+    focus = rng.sample(fl, 3)
+    bodies = list(BODIES)
+    ops = []
+    for _ in range(length):
+        r = rng.random()
+        if r < 0.22:
+            ops.append(["put", rng.choice(names), rng.choice(bodies)])
+        elif r < 0.28:
+            ops.append(["delete", rng.choice(names)])
+        else:
+            # repeat a few focus filters often so that thresholds are crossed and the
+            # index is reset and extended; sometimes another filter
+            ops.append(["query", rng.choice(focus) if rng.random() < 0.8 else rng.choice(fl)])
+    return ops
+
+
+def run_ops(ops, level, threshold, storekind="tree", tid=0):
+    """code -> spec: one explicit history (also the form in which witnesses of listed findings are kept)."""
     s = IndexSession(level, threshold, storekind)
     try:
-        names = ["a", "b", "c", "d"]
-        fl = [f for f in FILTERS if not f.startswith("f") or True]
-        focus = rng.sample(fl, 3)
-        bodies = list(BODIES)
-        for _ in range(length):
-            r = rng.random()
-            if r < 0.22:
-                s.put(rng.choice(names), rng.choice(bodies))
-            elif r < 0.28:
-                s.delete(rng.choice(names))
+        for op in ops:
+            if op[0] == "put":
+                s.put(op[1], op[2])
+            elif op[0] == "delete":
+                s.delete(op[1])
             else:
-                # repeat a few focus filters often so that thresholds are crossed and the
-                # index is reset and extended; sometimes another filter
-                s.query(rng.choice(focus) if rng.random() < 0.8 else rng.choice(fl))
-        return s.trace(seed)
+                s.query(op[1])
+        t = s.trace(tid)
+        t["ops"] = [list(o) for o in ops]
+        return t
     finally:
         s.close()
+
+
+def run_random(seed, level, threshold, storekind="tree", length=40):
+    return run_ops(random_ops(seed, length), level, threshold, storekind, tid=seed)
